@@ -5,6 +5,8 @@ package emu
 // with universally quantified data, against the benchmark's host reference.
 
 import (
+	"math"
+
 	"github.com/sarchlab/mgpusim/v4/amd/insts"
 	verif "github.com/sarchlab/mgpusim/v4/zzverif"
 	"github.com/sarchlab/mgpusim/v4/zzverif/c01data"
@@ -113,4 +115,109 @@ func VerifKernelMatrixTranspose() {
 	}
 	verif.Assert(ok, "matrixtranspose: output[i][j] differs from input[j][i]")
 	verif.Observe(uint64(mem.Get32(out + 4)))
+}
+
+// VerifKernelFastWalsh: amdappsdk/fastwalshtransform (GCN3 image), one step
+// (step = 1, 2, ..., 64) on 128 symbolic floats = one work-group of 64
+// work-items (the benchmark uses 256; the kernel does not depend on it):
+// every element equals one step of the host reference in Benchmark.Verify
+// (bit patterns; float + and - are uninterpreted but identical on both sides).
+func VerifKernelFastWalsh() {
+	co := zzvKernel("fastwalshtransform.gcn3")
+	if co == nil {
+		return
+	}
+	const n = 128
+	const arr = 0x4000
+	mem := &ZzvMem{B: make([]byte, 0x5000)}
+	step := uint32(1) << uint(verif.Choice(7))
+	var t [n]uint32
+	for i := range t {
+		t[i] = verif.U32()
+		mem.Put32(arr+uint64(4*i), t[i])
+	}
+	mem.Put64(ZzvKernargAddr+0, arr)
+	mem.Put32(ZzvKernargAddr+8, step)
+	ZzvRunWG(NewALU(mem), mem, co, [3]uint32{n / 2, 1, 1}, [3]uint16{n / 2, 1, 1}, 0, false)
+	want := t
+	jump := step << 1
+	for group := uint32(0); group < step; group++ {
+		for pair := group; pair < n; pair += jump {
+			match := pair + step
+			t1, t2 := math.Float32frombits(t[pair]), math.Float32frombits(t[match])
+			want[pair] = math.Float32bits(t1 + t2)
+			want[match] = math.Float32bits(t1 - t2)
+		}
+	}
+	ok := true
+	for i := 0; i < n; i++ {
+		ok = verif.And(ok, mem.Get32(arr+uint64(4*i)) == want[i])
+	}
+	verif.Assert(ok, "fastwalshtransform: device result differs from one step of the host reference")
+	verif.Observe(uint64(mem.Get32(arr)))
+}
+
+// VerifKernelBitonicSort: amdappsdk/bitonicsort (GCN3 image), the complete
+// sort of 8 symbolic values = 6 kernel launches (stage, pass) of 4 work-items
+// each in a clipped work-group of 64, ascending or descending: the final
+// array is sorted (Benchmark.Verify) and equals the reference sorting network
+// applied to the same input (so it is a permutation of the input).
+func VerifKernelBitonicSort() {
+	co := zzvKernel("bitonicsort.gcn3")
+	if co == nil {
+		return
+	}
+	const n = 8
+	const arr = 0x4000
+	mem := &ZzvMem{B: make([]byte, 0x5000)}
+	dir := uint32(verif.Choice(2))
+	var ref [n]uint32
+	for i := range ref {
+		ref[i] = verif.U32()
+		mem.Put32(arr+uint64(4*i), ref[i])
+	}
+	alu := NewALU(mem)
+	for stage := uint32(0); stage < 3; stage++ {
+		for pass := uint32(0); pass <= stage; pass++ {
+			mem.Put64(ZzvKernargAddr+0, arr)
+			mem.Put32(ZzvKernargAddr+8, stage)
+			mem.Put32(ZzvKernargAddr+12, pass)
+			mem.Put32(ZzvKernargAddr+16, dir)
+			ZzvRunWG(alu, mem, co, [3]uint32{n / 2, 1, 1}, [3]uint16{64, 1, 1}, 0, false)
+			// the same pass of the reference network
+			dist := uint32(1) << (stage - pass)
+			for t := uint32(0); t < n/2; t++ {
+				l := t%dist + t/dist*2*dist
+				r := l + dist
+				inc := dir
+				if (t/(1<<stage))%2 == 1 {
+					inc = 1 - inc
+				}
+				a, b := ref[l], ref[r]
+				lo := uint32(verif.Ite64(a > b, uint64(b), uint64(a)))
+				hi := uint32(verif.Ite64(a > b, uint64(a), uint64(b)))
+				if inc == 1 {
+					ref[l], ref[r] = lo, hi
+				} else {
+					ref[l], ref[r] = hi, lo
+				}
+			}
+		}
+	}
+	same, sorted := true, true
+	for i := 0; i < n; i++ {
+		v := mem.Get32(arr + uint64(4*i))
+		same = verif.And(same, v == ref[i])
+		if i+1 < n {
+			w := mem.Get32(arr + uint64(4*(i+1)))
+			if dir == 1 {
+				sorted = verif.And(sorted, v <= w)
+			} else {
+				sorted = verif.And(sorted, v >= w)
+			}
+		}
+	}
+	verif.Assert(same, "bitonicsort: device array differs from the reference network")
+	verif.Assert(sorted, "bitonicsort: result not sorted (Benchmark.Verify)")
+	verif.Observe(uint64(mem.Get32(arr)))
 }
